@@ -125,10 +125,40 @@ def _case(op: str) -> Case:
     return c
 
 
+_HW = []
+
+
+def _impl_h(op: str) -> str:
+    """evaluate a spec_eval / spec_verify op in a child process where pycoin selected its bundled pure-Python RIPEMD-160
+    (the choice is made at import time): the verdict and the stack must be those of consensus in that configuration too"""
+    import subprocess, sys
+    if not _HW:
+        here = os.path.dirname(os.path.dirname(os.path.abspath(__file__)))
+        code = ("import sys\nsys.path[:0] = [%r, %r]\nfrom props import c03\nfrom pycoin.encoding import hash as H\n"
+                "print('worker ripemd160=' + getattr(H.ripemd160, '__module__', '?'), flush=True)\n"
+                "for l in sys.stdin:\n    print(c03.impl(l.rstrip('\\n')), flush=True)\n") % (here, os.path.join(here, "props"))
+        w = subprocess.Popen([sys.executable, "-c", code], stdin=subprocess.PIPE, stdout=subprocess.PIPE, text=True, bufsize=1,
+                             env=dict(os.environ, PYCOIN_USE_PYTHON_RIPEMD160="1"))
+        hello = w.stdout.readline().strip()
+        if not hello.startswith("worker ripemd160="):
+            raise Infra("fallback-hash worker did not start: %r" % hello)
+        _HW.append(w)
+        _HW.append(hello)
+    w = _HW[0]
+    w.stdin.write(op + "\n")
+    w.stdin.flush()
+    out = w.stdout.readline()
+    if not out:
+        raise Infra("fallback-hash worker died on: %s" % op[:200])
+    return out.rstrip("\n")
+
+
 def impl(op: str) -> str:
     k = op.split(" ", 1)[0]
     if k.startswith("vm_"):
         return M.impl(op)
+    if k in ("spec_eval_h", "spec_verify_h"):
+        return _impl_h(k[:-2] + " " + op.split(" ", 1)[1])
     if k not in ("spec_eval", "spec_verify"):
         return "bad-op"
     out, err = _impl_case(_case(op))
@@ -1831,6 +1861,12 @@ def _emit_cases(cases, emit, ctx):
         CASES[op] = c
         SPEC[op] = _canon(c.spec)
         emit(op, c.tag or c.kind)
+        if c.tag == "hash-config":
+            # the same case once more in the configuration with the bundled pure-Python RIPEMD-160
+            oph = op.replace("spec_eval ", "spec_eval_h ", 1).replace("spec_verify ", "spec_verify_h ", 1)
+            CASES[oph] = c
+            SPEC[oph] = SPEC[op]
+            emit(oph, "hash-config:python-ripemd160")
         # evidence: do the error codes agree when both fail?
         ie = IMPL_ERR.get(op)
         if ie is not None and c.spec.startswith("fail "):
@@ -1879,6 +1915,22 @@ def gen(ctx, emit):
     if not os.environ.get("C03_NO_SIGARR"):
         signature_arrangements(cases, lambda op: emit(op, "vm:sigarr"), ctx.thorough, rng, ctx.n(60, 2000))
     _emit_cases(cases, emit, ctx)
+
+    # ---- hash opcodes across the padding boundaries of RIPEMD-160 / SHA-256, in the default configuration and in the one
+    # that selects the bundled pure-Python RIPEMD-160 (PYCOIN_USE_PYTHON_RIPEMD160): same verdict, same stack
+    hc = []
+    ctx0 = "1:0:4294967295:0"
+    for n in (0, 1, 31, 32, 54, 55, 56, 57, 63, 64, 65, 118, 119, 120, 127, 128, 183, 184, 247, 311, 375, 439, 503, 520):
+        d = bytes((7 * i + n) & 255 for i in range(n))
+        for hop in ("RIPEMD160", "HASH160"):
+            hc.append(Case("eval", 0, (push(d) + sc(hop), []), ctx0, "0", tag="hash-config"))
+    for n in (23, 55, 56, 119, 120, 183, 247, 503, 520):
+        redeem = (b"\x61" * (n - 1)) + b"\x51"          # NOPs then OP_1: a redeem script of n bytes (op count stays within 201)
+        if n - 1 <= 201:
+            hc.append(Case("verify", F["P2SH"], (push(redeem), sc("HASH160", push(h160(redeem)), "EQUAL"), []), ctx0, tag="hash-config"))
+        data = bytes((3 * i + n) & 255 for i in range(n))
+        hc.append(Case("verify", 0, (push(data), sc("RIPEMD160", push(hashlib.new("ripemd160", data).digest()), "EQUAL"), []), ctx0, tag="hash-config"))
+    _emit_cases(hc, emit, ctx)
 
     def batch(n, f):
         done = 0
